@@ -194,7 +194,26 @@ func VerifC18Lifecycle() {
 			name = names[nd.Choice("name", 2)]
 		}
 		m, exists := cat[name]
-		switch nd.Choice("op", 7) {
+		switch nd.Choice("op", 8) {
+		case 7: // DeleteItem of a stored or of an absent key: the counts follow
+			k := nd.StringN("key", 1)
+			_, err := c.DeleteItem(vCtx, &dynamodb.DeleteItemInput{TableName: aws.String(name), Key: vItem{"p": vS(k), "s": vS("r")}})
+			if !exists {
+				nd.Assert(vIsNotFound(err), "C18-delete-item-on-missing-table-is-not-found")
+				break
+			}
+			if !m.hasRange {
+				_, err = c.DeleteItem(vCtx, &dynamodb.DeleteItemInput{TableName: aws.String(name), Key: vItem{"p": vS(k)}})
+			}
+			nd.Reach("delete-item")
+			nd.Assert(err == nil, "C18-delete-item-noerr")
+			kept := []string{}
+			for _, x := range m.keys {
+				if x != k {
+					kept = append(kept, x)
+				}
+			}
+			m.keys = kept
 		case 0:
 			withRange, withGSI, billing := nd.Choice("range", 2) == 1, nd.Choice("gsi", 2) == 1, nd.Choice("billing", 3)
 			// with a sort key the table may declare two local secondary indexes (so: more local than global ones)
